@@ -56,7 +56,13 @@ def check_function(ctx, fi, self_cls, stats):
         m = e["m"]
         if m in PROTO_SUB:
             p = e["path"]
-            good = p in ok_terms or (is_renamed and p is not None and renamed_ext(p) is not None)
+            if is_renamed:
+                # the one class that adds a level: whatever it asks of the wrapped construct, it asks under path + ' -> name'
+                good = p is not None and renamed_ext(p) is not None
+                ctx.ob("C18.R4", fi, good, "Renamed hands the wrapped construct's %s the path extended by its own name (got %s)" % (m, N.show(p) if p else "nothing"), node=e.node)
+                stats["sub"] += 1
+                continue
+            good = p in ok_terms
             ctx.ob("C18.R4", fi, good, "sub-construct call %s must be handed the incoming path (got %s)" % (m, N.show(p) if p else "nothing"), node=e.node)
             stats["sub"] += 1
         elif m in PUBLIC_SUB:
@@ -191,6 +197,8 @@ def run(ctx):
         C06.check_seeks(ctx, fi, cls, rule="C18.R8")
     ctx.floor("C18.R8", 10)
 
+    # ---- the message of an error must be buildable for any offending object, or no ConstructError (and no path) is raised at all (shared with C06.R10)
+    C06.check_formats(ctx, "C18.R5")
     # ---- positive control: a raise without path and a sub call with a literal path must be reported
     ctl = control_model(
         "class ConstructError(Exception):\n    pass\nclass StreamError(ConstructError):\n    pass\n"
